@@ -715,6 +715,8 @@ pub fn g_specials(o: &mut Out) {
 fn fragmentations(o: &mut Out, ty: &str, cap: &str, text: &str, faults: bool) {
     let chars: Vec<char> = text.chars().collect();
     let n = chars.len();
+    // the string side of the comparison: C14 is about the two entry points agreeing, so both are run
+    o.put(&format!("frag-str/{}", ty), format!("parse_str {} {}", ty, tx(text)));
     if n == 0 {
         o.put(&format!("frag/{}", ty), format!("parse_fmt {} {} . -", ty, cap));
         o.put(&format!("frag/{}", ty), format!("parse_fmt {} {} - -", ty, cap));
